@@ -484,6 +484,16 @@ def synthesis(chk, prog, degree=3):
     dPn = {(1, 0): cc, (1, 1): -s, (2, 0): 3 * s * cc, (2, 1): r3 * (cc * cc - s * s), (2, 2): -r3 * s * cc,
            (3, 0): (15 * s * s * cc - 3 * cc) / 2, (3, 1): r6 / 4 * (-s * (5 * s * s - 1) + 10 * s * cc * cc),
            (3, 2): r15 / 2 * (cc * cc * cc - 2 * s * s * cc), (3, 3): -(3 * r10 / 4) * cc * cc * s}
+    if N >= 4:
+        # degree 4 (thorough tier): Schmidt semi-normalised closed forms and their latitude derivatives
+        r5, r35, r70 = P.sqrt(P.const(5)), P.sqrt(P.const(35)), P.sqrt(P.const(70))
+        s2, c2 = s * s, cc * cc
+        Pn.update({(4, 0): (35 * s2 * s2 - 30 * s2 + 3) / 8, (4, 1): r10 / 4 * cc * (7 * s2 * s - 3 * s), (4, 2): r5 / 4 * c2 * (7 * s2 - 1),
+                   (4, 3): r70 / 4 * c2 * cc * s, (4, 4): r35 / 8 * c2 * c2})
+        dPn.update({(4, 0): (35 * s2 * s - 15 * s) * cc / 2, (4, 1): r10 / 4 * (-7 * s2 * s2 + 3 * s2 + (21 * s2 - 3) * c2),
+                    (4, 2): r5 / 4 * (-2 * cc * s * (7 * s2 - 1) + 14 * s * c2 * cc), (4, 3): r70 / 4 * (-3 * c2 * s2 + c2 * c2), (4, 4): -(r35 / 2) * c2 * cc * s})
+    if N > 4:
+        raise ValueError("reference synthesis is tabulated up to degree 4")
     dt = date - epoch
     ar = a_km / r
     Xp = Yp = Zp = P.ZERO
@@ -601,6 +611,8 @@ def run(chk, prog, tier):
     bounds_rule(chk, prog)
     dt_rule(chk, prog)
     synthesis(chk, prog, degree=3)
+    if tier == "thorough":
+        synthesis(chk, prog, degree=4)      # one more degree of the recursions (k[m, n], the Legendre functions and their derivatives) against closed forms
     chk.require_count("TABLE.epoch", 4)
     chk.require_count("INDEX.loader", 4)
     chk.require_count("BOUNDS", 2)
